@@ -1,8 +1,9 @@
 SPECIFICATION Spec
 CONSTANTS
   MaxRules = 2
-  Kinds = {"clean", "bare", "tmpl", "regexp", "agg", "broken", "both"}
+  Kinds = {"clean", "bare", "tmpl", "regexp", "agg", "broken", "both", "ovr"}
   Cfgs = {"none", "same", "mixed"}
   Twos = {FALSE, TRUE}
+  Grps = {FALSE, TRUE}
 INVARIANTS EmitCase
 CHECK_DEADLOCK FALSE
